@@ -339,6 +339,8 @@ func caseInboxFull(res *results, name string, rng *rand.Rand) {
 	overflowed := waitFor(watchdog, func() bool { return b.log.inboxFull[t].Load() > 0 || w.connDead(c.a) }) && b.log.inboxFull[t].Load() > 0
 	dbg("overflow wait done")
 	b.setPaused(t, false)
+	// let the consumer empty the inbox first, or the markers below are dropped like the rest
+	waitFor(watchdog/3, func() bool { return b.p.GetInboxStats()[t] == 0 || w.connDead(c.a) })
 	if !w.fence(c.a, allTopics) {
 		res.inconclusive("%s: fence outstanding", name)
 	}
@@ -622,7 +624,12 @@ func caseHostile(res *results, name, kind string, rng *rand.Rand) (aimedAtObserv
 		}
 		// same bytes in every full packet: only the total matters here, and 256 MB of distinct words buys nothing
 		full := frameFor(&p2p.Packet{StreamId: t1, Eof: false, Bytes: buf})
+		tStart, tLast := time.Now(), time.Now()
 		for sent < total {
+			if os.Getenv("VERIF_C18_DEBUG") != "" && time.Since(tLast) > 300*time.Millisecond {
+				fmt.Printf("DEBUG %s packet %d took %.2fs (t=%.1fs)\n", name, s.sentPkts, time.Since(tLast).Seconds(), time.Since(tStart).Seconds())
+			}
+			tLast = time.Now()
 			n := min(chunk, total-sent)
 			if n == chunk && sent+n < total {
 				s.ref(t1).add(buf)
@@ -704,11 +711,15 @@ func caseHostile(res *results, name, kind string, rng *rand.Rand) (aimedAtObserv
 	res.count("hostile_scripts_run", 1)
 	aimedAtObserved = !heavy
 	if e, ok := v.log.peerErr(r.pubHex); ok && strings.Contains(e, "max message size") {
-		res.count("hostile_rejected_by_size_cap", 1)
+		if heavy {
+			res.count("hostile_rejected_by_message_size_cap", 1) // handlePacket's cap on the reassembled message
+		} else {
+			res.count("hostile_rejected_by_wire_frame_cap", 1) // receiveLengthPrefixed's cap on one frame
+		}
 		aimedAtObserved = true
 	} else if kind == "at-limit" && w.isDelivered(canary) {
 		aimedAtObserved = true
-	} else if strings.HasPrefix(kind, "overlimit") || strings.HasPrefix(kind, "length-") {
+	} else if heavy {
 		res.count("hostile_overlimit_closed_for_another_reason", 1)
 		e, _ := v.log.peerErr(r.pubHex)
 		res.sample(map[string]any{"case": name, "note": "closed before/without the size cap", "reason_logged_by_code": e, "packets_sent": s.sentPkts, "victim_log_tail": v.log.lastLines()})
@@ -790,7 +801,8 @@ func caseEarlySend(res *results, name string, rng *rand.Rand, stallLogger bool) 
 		info := &lib.PeerInfo{Address: &lib.PeerAddress{PublicKey: decoy, NetAddress: "mem-book-entry:1"}, IsOutbound: true}
 		aerr = v.p.AddPeer(lk.b, info, false, false)
 	}()
-	var rec *sentRec
+	var recp atomic.Pointer[sentRec]
+	size := 100 + rng.Intn(1000)
 	go func() {
 		defer wg.Done()
 		rerr = w.dialOne(re, lk.a, true, nil)
@@ -799,8 +811,8 @@ func caseEarlySend(res *results, name string, rng *rand.Rand, stallLogger bool) 
 		}
 		// send at once, without waiting for the victim to finish AddPeer
 		s := &rawScript{w: w, e: re, victim: v.idx, asm: map[lib.Topic]*refAsm{}}
-		s.whole(t, 100+rng.Intn(1000))
-		rec = w.lastRec()
+		s.whole(t, size)
+		recp.Store(w.lastRec())
 	}()
 	// the consumer pops the message as soon as it is there (it reads Sender the way the controller does)
 	go func() {
@@ -819,7 +831,7 @@ func caseEarlySend(res *results, name string, rng *rand.Rand, stallLogger bool) 
 	w.mu.Lock()
 	w.conns = append(w.conns, &conn{lk: lk, a: re, b: &endpoint{n: v, peer: r, mode: modePeerSet}})
 	w.mu.Unlock()
-	if !waitFor(watchdog, func() bool { return rec != nil && w.isDelivered(rec) }) {
+	if !waitFor(watchdog, func() bool { rec := recp.Load(); return rec != nil && w.isDelivered(rec) }) {
 		res.inconclusive("%s: early message outstanding", name)
 	}
 	w.settle()
@@ -1084,7 +1096,18 @@ func caseLimit(res *results, name, which string, rng *rand.Rand) {
 	w.evaluate(evalOpts{complete: true, ordered: true})
 	res.eval(1)
 	res.count("limit_cases", 1)
-	res.distinct("limit/" + which)
+	e, _ := b.log.peerErr(a.pubHex)
+	switch {
+	case which == "at" && w.isDelivered(big):
+		res.count("limit_message_at_the_limit_delivered_whole", 1)
+		res.distinct("limit/at")
+	case which == "over" && strings.Contains(e, "max message size"):
+		res.count("limit_message_over_the_limit_rejected_by_cap", 1)
+		res.distinct("limit/over")
+	default:
+		res.count("limit_cases_ended_for_another_reason", 1)
+		res.sample(map[string]any{"case": name, "note": "the connection ended before the limit was reached", "reason_logged_by_code": e})
+	}
 }
 
 // ---------- contention: many goroutines hand multi-packet messages to ONE stream at the same instant ----------
